@@ -147,6 +147,23 @@ def run_history(rootname, hist, warm=False):
                         if name in refs and not is_obj(refs[name][1]) and not inst.is_dynamic():
                             exp_refs.add(refs[name][0] + "." + name if refs[name][0] == inst.defpath else None)
                 exp_refs.discard(None)
+                # references read by name: names loaded by the element's own formula that resolve to a
+                # value-reference of its space (own or derived) or of the model
+                try:
+                    inst0 = rt.ev.instance(h["inst"])
+                    if not inst0.is_dynamic():
+                        definer, cdef = w.rm.cells_of(inst0.defpath)[h["c"]]
+                        srefs = w.rm.refs_of(inst0.defpath)
+                        for nm in _loaded_names(cdef.src):
+                            if nm in w.rm.cells_of(inst0.defpath) or nm in w.rm.space(inst0.defpath).children:
+                                continue
+                            if nm in srefs:
+                                if not is_obj(srefs[nm][1]):
+                                    exp_refs.add(inst0.defpath + "." + nm)
+                            elif nm in w.rm.refs and not is_obj(w.rm.refs[nm]):
+                                exp_refs.add(nm)
+                except Exception:
+                    pass
             got = pred_of.get(h["elem"])
             if got is None:
                 continue
